@@ -253,6 +253,11 @@ def main(argv):
         sys.stderr.write("BROKEN-INPUT: %s\n" % e)
         print("check %s could not run: build or harness failure (see stderr); no verdict" % pid)
         return 2
+    except Exception:
+        import traceback
+        traceback.print_exc()
+        print("check %s could not run: internal error of the checking machinery (traceback on stderr); no verdict" % pid)
+        return 2
     write_evidence(ctx, ph, chk)
     for k, what in ctx.known_hits:
         print("KNOWN-FINDING: property=%s %s [%s]" % (pid, k.get("summary", what), k["id"]))
